@@ -772,7 +772,8 @@ func (h *fsHandler) openIndexFile(ctx *RequestContext, dirPath string, mustCompr
 		if err == nil {
 			return ff, nil
 		}
-		if !os.IsNotExist(err) {
+		if !os.IsNotExist(err) && err != errDirIndexRequired {
+			// (a directory named like an index file is no index file: try the next name)
 			return nil, fmt.Errorf("cannot open file %q: %s", indexFilePath, err)
 		}
 	}
